@@ -261,21 +261,26 @@ def replay_op(attr_name, cls, allowed, op_code, photon=False):
                "3d": f"c._array = N.make_value('xr', shape=(2, {rows}, {cols}))"}[w["pre"]]
         return {"code": f"""
 import numpy as np, c13_native as N
-det = N.detector({rows}, {cols}, kind={'"MKID"' if attr_name == 'phase' else '"CCD"'})
-c = det.{attr_name}
-{pre}
-value = {native_value(w)}
-before = c._array
-before_copy = None if before is None else before.copy()
-raised = None
-try:
-{op_code}
-except Exception as e:
-    raised = e
-ok, what = N.rep(c, {rows}, {cols}, {tuple(allowed)!r}, photon={photon})
-same = (c._array is before) and (before is None or bool(np.array_equal(np.asarray(before), np.asarray(before_copy))))
-VIOLATED = (not ok) or (raised is not None and not same)
-DETAIL = 'after op on {cls} (pre={w["pre"]}, value=' + repr(getattr(value, 'shape', value)) + '/' + str(getattr(value, 'dtype', type(value).__name__)) + '): container holds ' + what + ('; raised ' + repr(raised) + (' and content changed' if not same else '') if raised else '')
+VIOLATED, DETAIL = False, 'no candidate value broke the representation invariant'
+cands = [{native_value(w)}, np.ones(({rows}, {cols})), np.ones((2, {rows}, {cols})), np.ones(({rows}, {cols}), dtype=complex), np.ones((1, {cols})), np.ones(({rows}, {cols}), dtype=np.uint16),
+         np.ones(({rows}, {cols}), dtype=np.int64), np.ones({cols}), 1.5, np.float32(2.0)]
+for value in cands:
+    det = N.detector({rows}, {cols}, kind={'"MKID"' if attr_name == 'phase' else '"CCD"'})
+    c = det.{attr_name}
+    {pre}
+    before = c._array
+    before_copy = None if before is None else before.copy()
+    raised = None
+    try:
+    {op_code}
+    except Exception as e:
+        raised = e
+    ok, what = N.rep(c, {rows}, {cols}, {tuple(allowed)!r}, photon={photon})
+    same = (c._array is before) and (before is None or bool(np.array_equal(np.asarray(before), np.asarray(before_copy))))
+    if (not ok) or (raised is not None and not same):
+        VIOLATED = True
+        DETAIL = 'after op on {cls} (pre={w["pre"]}, value=' + repr(getattr(value, 'shape', value)) + '/' + str(getattr(value, 'dtype', type(value).__name__)) + '): container holds ' + what + ('; raised ' + repr(raised) + (' and content changed' if not same else '') if raised else '')
+        break
 """, "expect": f"{cls} keeps its representation invariant"}
     return mk
 
